@@ -23,6 +23,7 @@ class Spec:
         self.src, self.cur = src, 0
         self.anchor, self.nanch = None, 0
         self.lastp = None            # offset of the pointer handed out by the last Get* call
+        self.x = False               # extended contract ValidHistX (HistoryX.lean; streams and pipes read in pages): SetOffset beyond the end, ahead of the cursor
 
     def issep(self, sep, c):
         return c == 0 or c in sep
@@ -99,9 +100,14 @@ class Spec:
             r = dict(st="ok", bytes=b"", n=0)
         elif name == "setoffset":
             o = int(kv["o"])
-            if not self.setoffset_ok(o): return None
-            self.cur = o
-            r = dict(st="ok", bytes=b"", n=0)
+            if self.x and o > len(self.src) and o > self.cur:
+                # specStepX: eslEINVAL, the stream has been read to its end, the cursor stands there, anchors kept
+                self.cur = max(self.cur, len(self.src))
+                r = dict(st="einval", bytes=b"", n=0)
+            elif not self.setoffset_ok(o): return None
+            else:
+                self.cur = o
+                r = dict(st="ok", bytes=b"", n=0)
         elif name in ("setanchor", "setstable"):
             o = int(kv["o"])
             if not self.anchor_ok(o): return None
@@ -898,9 +904,10 @@ class C05(Prop):
 
     SEPS = [b" ", b" \t", b" \t\r\n", b",", b" ,", b"\n", b"\r", b"", b" \t\n"]
 
-    def gen_history(self, rng, src, minps, nops, tokens=True, readmax=None, stable=True):
-        """valid history (list of op lines) by simulating the abstract spec"""
+    def gen_history(self, rng, src, minps, nops, tokens=True, readmax=None, stable=True, beyond=False):
+        """valid history (list of op lines) by simulating the abstract spec; beyond=True: the larger class ValidHistX"""
         sp = Spec(src)
+        sp.x = beyond
         ops = []
         myanch = []          # offsets the history has anchored and not yet raised
         style = rng.choice(["lines", "tokens", "mixed", "mixed", "binary", "anchors"])
@@ -945,6 +952,7 @@ class C05(Prop):
                         o = rng.choice([lo, sp.cur, hi, rng.randrange(lo, hi + 1), rng.randrange(lo, min(hi, sp.cur + 40) + 1)])
                         if sp.setoffset_ok(o): cand = "setoffset o=%d" % o
                 if cand is None: cand = "getoffset"
+            if beyond and rng.random() < 0.08: cand = "setoffset o=%d" % (len(src) + rng.choice([1, 1, 2, rng.randrange(1, 5000)]))
             if sp.apply(cand) is None:
                 raise AssertionError("generator produced an op outside the contract: " + cand)
             ops.append(cand)
@@ -1135,6 +1143,17 @@ class C05(Prop):
                     out.append(self.mk("wild%d.%s.%d" % (i, m, ps), wsrc, m, ps, wops, nomonitor=True, wild=True))
                     self.stats["wild_cases"] += 1
                     for o in wops: self.stats["ops"][o.split()[0]] = self.stats["ops"].get(o.split()[0], 0) + 1
+        # round 6: the larger class ValidHistX (history_spec_x): streams and pipes read in pages, SetOffset beyond the end anywhere in the history;
+        # monitored per operation against the extended python specification (Spec.x), compared exactly with the model
+        self.stats["xhist_cases"] = 0
+        for i in range(60 if quick else 800):
+            xsrc = self.gen_input(rng, False) if rng.random() < 0.7 else self.gen_edge_input(rng, rng.choice([1, 2, 3, 4, 8, 16]))
+            xps = rng.choice([1, 2, 3, 4, 5, 7, 8, 16, 17, 32, 33, 64, 65, 128, 129, 512])
+            xm = rng.choice(["stream", "stream", "pipe"])
+            if xm == "pipe" and len(xsrc) < xps: xm = "stream"          # a short pipe is a whole-input buffer (eslEINVAL, nothing changes)
+            xops = self.gen_history(rng, xsrc, xps, rng.choice([5, 20, 60]), tokens=True, readmax=None, stable=(rng.random() < 0.3), beyond=True)
+            out.append(self.mk("xhist%d.%s.%d" % (i, xm, xps), xsrc, xm, xps, xops, xhist=True))
+            self.stats["xhist_cases"] += 1
         out += open_cases(self, rng, quick, ctx)   # round4-open
         out += mem_cases(rng, quick); self.stats["mem"] = mem_stats(out)   # round4-mem
         return out
@@ -1180,7 +1199,7 @@ class C05(Prop):
                 want = "%s,%s,%d" % (exp["st"], "-" if exp.get("get") else hx(exp["bytes"]), exp["off"])
                 if f["mspec"] != want: return (i, "python-memStep " + want, "lean-memStep " + f["mspec"])
             return None
-        if case.get("nomonitor"): return None
+        if case.get("nomonitor") or case.get("xhist"): return None     # xhist: the Lean side channel prints specStep/Valid, not specStepX (history_spec_x)
         sp = Spec(src0)
         for i, (op, l) in enumerate(zip(ops[1:], model_out[1:]), 1):
             exp = sp.apply(op)
@@ -1241,6 +1260,7 @@ class C05(Prop):
         if not out or not out[0].startswith("ok"):
             return Failure("monitor", "open of %d bytes in mode %s failed: %r" % (len(src), mode, out[:1]))
         sp = Spec(src)
+        sp.x = bool(case.get("xhist"))
         known = None        # first failure that is a known finding: remembered, the specification is re-synchronised, monitoring goes on
         for i, (op, l) in enumerate(zip(ops[1:], out[1:]), 1):
             if l.startswith(("fault", "atexit")): return known    # reported by the engine as a fault
